@@ -849,7 +849,9 @@ hawk_flt_t hawk_uchars_to_flt (const hawk_uch_t* str, hawk_oow_t len, const hawk
 
 		while (p < end && hawk_is_uch_digit(*p))
 		{
-			exp = exp * 10 + (*p - '0');
+			/* don't let the exponent overflow. any value over FLT_MAX_EXPONENT is
+			 * clamped to it below */
+			if (exp <= FLT_MAX_EXPONENT) exp = exp * 10 + (*p - '0');
 			p++;
 		}
 	}
@@ -1058,7 +1060,9 @@ hawk_flt_t hawk_bchars_to_flt (const hawk_bch_t* str, hawk_oow_t len, const hawk
 
 		while (p < end && hawk_is_bch_digit(*p))
 		{
-			exp = exp * 10 + (*p - '0');
+			/* don't let the exponent overflow. any value over FLT_MAX_EXPONENT is
+			 * clamped to it below */
+			if (exp <= FLT_MAX_EXPONENT) exp = exp * 10 + (*p - '0');
 			p++;
 		}
 	}
